@@ -60,12 +60,12 @@ def cases(tier, seed):
     for name in names:
         for ml in ((7, 8, 9, 13, 16, 22, 40, 64, 128, 16384, 2 ** 32 - 1) if not thorough else maxlens(tier)):
             F = ml - 6
-            for n in [0] + ds_lengths(F, False):
+            for n in [0] + ds_lengths(F, thorough and ml <= 40):
                 yield {'cls': name, 'maxlen': ml, 'dslen': n, 'pc': 3}
     # 3. command-set length through UID lengths (multiples of F)
     for name in (names if thorough else ['CStoreRQMessage', 'CEchoRQMessage', 'NActionRSPMessage', 'CMoveRSPMessage']):
         for ul in range(1, 65):
-            for ml in (7, 8, 10, 16, 20, 26, 38, 70, 100):
+            for ml in ((7, 8, 10, 16, 20, 26, 38, 70, 100) if not thorough else (7, 8, 9, 10, 11, 13, 16, 20, 26, 32, 38, 40, 70, 100, 128)):
                 yield {'cls': name, 'maxlen': ml, 'dslen': 0 if ul % 2 else 5, 'pc': 5, 'uidlen': ul}
     # 4. context ids
     for pc in range(1, 256, 2):
